@@ -348,4 +348,133 @@ theorem filterDuplicates_sublist (ps : List Path) : (filterDuplicates ps).Sublis
     (p := fun ip => ((indexedFrom 0 ps).foldl dedupStep []).any fun kv => kv.2.1 == ip.1)).map (·.2)
   rwa [indexedFrom_map_snd] at h
 
+
+theorem mem_indexedFrom {α : Type} (l : List α) (i k : Nat) (a : α) :
+    (k, a) ∈ indexedFrom i l ↔ i ≤ k ∧ l[k - i]? = some a := by
+  induction l generalizing i with
+  | nil => simp [indexedFrom]
+  | cons x xs ih =>
+    simp only [indexedFrom, List.mem_cons, Prod.mk.injEq, ih]
+    constructor
+    · rintro (⟨rfl, rfl⟩ | ⟨h1, h2⟩)
+      · simp
+      · refine ⟨by omega, ?_⟩
+        have : k - i = (k - (i + 1)) + 1 := by omega
+        rw [this]; simpa using h2
+    · rintro ⟨h1, h2⟩
+      by_cases hk : k = i
+      · subst hk; simp at h2; exact .inl ⟨rfl, h2.symm⟩
+      · right
+        refine ⟨by omega, ?_⟩
+        have : k - i = (k - (i + 1)) + 1 := by omega
+        rw [this] at h2; simpa using h2
+
+theorem mem_indexedFrom_zero {α : Type} (l : List α) (k : Nat) (a : α) :
+    (k, a) ∈ indexedFrom 0 l ↔ l[k]? = some a := by
+  simp [mem_indexedFrom]
+
+theorem mem_upExits (u : Seg) (e : Edge) (v : Vertex) : (e, v) ∈ upExits u ↔ IsUpExit u e v := by
+  unfold upExits IsUpExit
+  simp only [List.mem_flatMap, List.mem_append, List.mem_map, Prod.exists, mem_indexedFrom_zero]
+  constructor
+  · rintro ⟨i, ent, hi, h | ⟨k, p, hk, h⟩⟩
+    · split at h
+      · next hne =>
+        simp at h; obtain ⟨rfl, rfl⟩ := h
+        exact ⟨rfl, rfl, ent, hi, .inl ⟨rfl, hne, rfl⟩⟩
+      · cases h
+    · simp at h; obtain ⟨rfl, rfl⟩ := h
+      exact ⟨rfl, rfl, ent, hi, .inr ⟨k, p, rfl, hk, rfl⟩⟩
+  · rintro ⟨rfl, hk, ent, hi, ⟨hp, hne, rfl⟩ | ⟨k, p, hp, hk2, rfl⟩⟩
+    · refine ⟨e.sc, ent, hi, .inl ?_⟩
+      simp only [hne, ne_eq, not_false_eq_true, if_true, List.mem_singleton, Prod.mk.injEq, and_true]
+      cases e; simp_all
+    · refine ⟨e.sc, ent, hi, .inr ⟨k, p, hk2, ?_⟩⟩
+      cases e; simp_all
+
+
+theorem mem_downEntries (d : Seg) (v : Vertex) (e : Edge) :
+    (v, e) ∈ downEntries d ↔ IsDownEntry d v e := by
+  unfold downEntries IsDownEntry
+  simp only [List.mem_flatMap, List.mem_append, List.mem_map, Prod.exists, mem_indexedFrom_zero]
+  constructor
+  · rintro ⟨i, ent, hi, h | ⟨k, p, hk, h⟩⟩
+    · split at h
+      · next hne =>
+        simp at h; obtain ⟨rfl, rfl⟩ := h
+        exact ⟨rfl, rfl, ent, hi, .inl ⟨rfl, hne, rfl⟩⟩
+      · cases h
+    · simp at h; obtain ⟨rfl, rfl⟩ := h
+      exact ⟨rfl, rfl, ent, hi, .inr ⟨k, p, rfl, hk, rfl⟩⟩
+  · rintro ⟨rfl, hk, ent, hi, ⟨hp, hne, rfl⟩ | ⟨k, p, hp, hk2, rfl⟩⟩
+    · refine ⟨e.sc, ent, hi, .inl ?_⟩
+      simp only [hne, ne_eq, not_false_eq_true, if_true, List.mem_singleton, Prod.mk.injEq, true_and]
+      cases e; simp_all
+    · refine ⟨e.sc, ent, hi, .inr ⟨k, p, hk2, ?_⟩⟩
+      cases e; simp_all
+
+theorem mem_upsFrom (ups : List Seg) (src : Nat) (e : Edge) (v : Vertex) :
+    (e, v) ∈ upsFrom ups src ↔ UpFrom ups src e v := by
+  unfold upsFrom UpFrom
+  simp only [List.mem_flatMap, List.mem_filter, mem_upExits, beq_iff_eq]
+  constructor
+  · rintro ⟨u, ⟨hu, hl⟩, h⟩; exact ⟨u, hu, hl, h⟩
+  · rintro ⟨u, hu, hl, h⟩; exact ⟨u, ⟨hu, hl⟩, h⟩
+
+theorem mem_downsTo (downs : List Seg) (dst : Nat) (v : Vertex) (e : Edge) :
+    (v, e) ∈ downsTo downs dst ↔ DownTo downs dst v e := by
+  unfold downsTo DownTo
+  simp only [List.mem_flatMap, List.mem_filter, mem_downEntries, beq_iff_eq]
+  constructor
+  · rintro ⟨u, ⟨hu, hl⟩, h⟩; exact ⟨u, hu, hl, h⟩
+  · rintro ⟨u, hu, hl, h⟩; exact ⟨u, ⟨hu, hl⟩, h⟩
+
+theorem mem_coreLinks (cores : List Seg) (a b : Vertex) (e : Edge) :
+    (a, e, b) ∈ coreLinks cores ↔ CoreOf cores a e b := by
+  unfold coreLinks CoreOf
+  simp only [List.mem_filterMap]
+  constructor
+  · rintro ⟨c, hc, h⟩
+    split at h
+    · next l f hl hf =>
+      simp at h; obtain ⟨rfl, rfl, rfl⟩ := h
+      exact ⟨c, hc, rfl, l, f, hl, hf, rfl, rfl⟩
+    · cases h
+  · rintro ⟨c, hc, rfl, l, f, hl, hf, rfl, rfl⟩
+    exact ⟨c, hc, by simp [hl, hf]⟩
+
+theorem allJoins_iff (ups cores downs : List Seg) (src dst : Nat) (es : List Edge) :
+    es ∈ allJoins ups cores downs src dst ↔ IsJoin ups cores downs src dst es := by
+  unfold allJoins IsJoin
+  simp only [List.mem_append, List.mem_map, List.mem_filter, List.mem_flatMap, Prod.exists,
+    mem_upsFrom, mem_downsTo, mem_coreLinks, decide_eq_true_eq]
+  constructor
+  · rintro ((((((⟨e, v, ⟨h, rfl⟩, rfl⟩ | ⟨a, c, b, ⟨h, rfl, rfl⟩, rfl⟩) | ⟨v, d, ⟨h, rfl⟩, rfl⟩) |
+      ⟨e, v, hu, a, c, b, ⟨hc, rfl, rfl⟩, rfl⟩) | ⟨e, v, hu, w, d, ⟨hd, rfl⟩, rfl⟩) |
+      ⟨a, c, b, hc, h⟩) | ⟨e, v, hu, a, c, b, ⟨hc, rfl⟩, w, d, ⟨hd, rfl⟩, rfl⟩)
+    · exact .inl ⟨e, rfl, h⟩
+    · exact .inr (.inl ⟨c, rfl, h⟩)
+    · exact .inr (.inr (.inl ⟨d, rfl, h⟩))
+    · exact .inr (.inr (.inr (.inl ⟨e, c, _, rfl, hu, hc⟩)))
+    · exact .inr (.inr (.inr (.inr (.inl ⟨e, d, _, rfl, hu, hd⟩))))
+    · split at h
+      · next ha =>
+        subst ha
+        simp only [List.mem_map, List.mem_filter, Prod.exists, mem_downsTo, decide_eq_true_eq] at h
+        obtain ⟨w, d, ⟨hd, rfl⟩, rfl⟩ := h
+        exact .inr (.inr (.inr (.inr (.inr (.inl ⟨c, d, _, rfl, hc, hd⟩)))))
+      · cases h
+    · exact .inr (.inr (.inr (.inr (.inr (.inr ⟨e, c, d, _, _, rfl, hu, hc, hd⟩)))))
+  · rintro (⟨e, rfl, h⟩ | ⟨c, rfl, h⟩ | ⟨d, rfl, h⟩ | ⟨e, c, v, rfl, hu, hc⟩ | ⟨e, d, v, rfl, hu, hd⟩ |
+      ⟨c, d, v, rfl, hc, hd⟩ | ⟨e, c, d, v, w, rfl, hu, hc, hd⟩)
+    · exact .inl (.inl (.inl (.inl (.inl (.inl ⟨e, _, ⟨h, rfl⟩, rfl⟩)))))
+    · exact .inl (.inl (.inl (.inl (.inl (.inr ⟨_, c, _, ⟨h, rfl, rfl⟩, rfl⟩)))))
+    · exact .inl (.inl (.inl (.inl (.inr ⟨_, d, ⟨h, rfl⟩, rfl⟩))))
+    · exact .inl (.inl (.inl (.inr ⟨e, v, hu, v, c, _, ⟨hc, rfl, rfl⟩, rfl⟩)))
+    · exact .inl (.inl (.inr ⟨e, v, hu, v, d, ⟨hd, rfl⟩, rfl⟩))
+    · refine .inl (.inr ⟨_, c, v, hc, ?_⟩)
+      simp only [if_true, List.mem_map, List.mem_filter, Prod.exists, mem_downsTo, decide_eq_true_eq]
+      exact ⟨v, d, ⟨hd, rfl⟩, rfl⟩
+    · exact .inr ⟨e, v, hu, v, c, w, ⟨hc, rfl⟩, w, d, ⟨hd, rfl⟩, rfl⟩
+
 end Scion.Combinator
